@@ -64,6 +64,7 @@ type OracleSet struct {
 	TLSCerts        bool // C15: SNI evaluator vs TLS reference at sync points
 	ClassSelect     bool // C08: contributing ingresses == documented selection
 	ExtAuth         bool // C18: protected paths are intercepted or denied
+	OrderIndep      bool // C06: permuted fresh pipelines == canonical fresh pipeline
 	Property        string
 }
 
@@ -241,6 +242,11 @@ func (r *Run) runTask(g *rt.ParkedGate) {
 		r.probe("dyn_update_cmds")
 	}
 	r.trace("reconcile #%d: %+v", r.reconciles, r.cur)
+	{
+		c := r.cur
+		c.id = 0
+		r.sig = append(r.sig, fmt.Sprintf("%+v", c))
+	}
 	r.afterReconcile(pendingBefore)
 }
 
@@ -428,6 +434,9 @@ func (r *Run) syncPoint(note string) {
 	}
 	if r.or.EffectiveAtSync || r.or.EffectiveStep {
 		r.checkEffective(r.or.Property, "sync-point")
+	}
+	if r.or.OrderIndep {
+		r.checkOrderIndependence()
 	}
 	if r.or.Routing {
 		r.checkRouting()
